@@ -18,6 +18,10 @@ REPO = os.environ.get("VERIF_REPO", "/repo")
 SPEC = os.path.join(VERIF, "spec")
 HARNESS = os.path.join(VERIF, "harness")
 EVID = os.path.join(VERIF, "evidence")
+if os.path.realpath(REPO) != "/repo":
+    # runs against a scratch checkout (seeded bugs, hook development) must not
+    # overwrite the committed evidence
+    EVID = os.path.join(VERIF, "evidence", "alt")
 TLA_CP = "/opt/veriftools/tla/tla2tools.jar:/opt/veriftools/tla/CommunityModules-deps.jar"
 MODULE = "github.com/elastos/Elastos.ELA"
 
